@@ -579,6 +579,10 @@ def init_dataclass(
                     key = transformer.to_str(key)
                 _data[key] = val
             data = _data
+        elif type(data) is not dict:
+            # a Mapping (or dict subclass) brings its own keys() / __getitem__: read it here,
+            # where a failure is reported as a ParseError, not while unpacking it as **data below
+            data = dict(data)
     except Exception as e:
         raise exc.ParseError(type=cls, value=data, origin_exc=e) from e
 
